@@ -8,7 +8,8 @@
 (*   BenchReaderResults(p): the reader gives every REPEATED operand of a   *)
 (*        parity gate a buffer <net>_dup (uid: _dup, _dup_0, _dup_1 ... in  *)
 (*        the order the gates appear in the text, which the program does   *)
-(*        not fix - hence a set of results); a DFF is a buffer net plus an  *)
+(*        not fix - hence a set of results; names of nets that occur in    *)
+(*        the text are skipped); a DFF is a buffer net plus an             *)
 (*        instance <net>_dff of blackbox dff(D; Q).                        *)
 (***************************************************************************)
 EXTENDS CGVerilogIO
@@ -28,23 +29,29 @@ IsParityGate(it) == it.k = "gate" /\ it.t \in {"xor", "xnor"}
 RepeatPositions(it) == {q \in 1..Len(it.ins) : \E q2 \in 1..(q - 1) : it.ins[q2] = it.ins[q]}
 DupGates(p) == {j \in 1..Len(p.items) : IsParityGate(p.items[j]) /\ RepeatPositions(p.items[j]) # {}}
 UidCand(base, k) == IF k = 0 THEN base ELSE base \o "_" \o UidSuffix(k)
+\* uid(base, blocked): the first of base, base_0, base_1, ... that is neither a node yet nor a net named anywhere in the text
+RECURSIVE FirstFree(_,_,_)
+FirstFree(base, taken, k) == IF k > MaxUidTries THEN base \o "_overflow"
+                             ELSE IF UidCand(base, k) \in taken THEN FirstFree(base, taken, k + 1) ELSE UidCand(base, k)
+BenchNets(p) == DrivenNets(p) \cup FreeNets(p) \cup Range(p.outputs)
+                \cup UNION {UNION {ExprNets(p.items[j].ins[q]) : q \in 1..Len(p.items[j].ins)} : j \in {x \in 1..Len(p.items) : p.items[x].k = "gate"}}
 \* names handed out while the gates with repeats are read in the order `ord`
 RECURSIVE DupAssign(_,_,_,_,_)
-DupAssign(p, ord, g, cnt, A) ==
+DupAssign(p, ord, g, used, A) ==
   IF g > Len(ord) THEN A
   ELSE LET j == ord[g]
            it == p.items[j]
            RECURSIVE Pos(_,_,_)
-           Pos(q, c2, A2) ==
-             IF q > Len(it.ins) THEN [cnt |-> c2, A |-> A2]
-             ELSE IF q \notin RepeatPositions(it) THEN Pos(q + 1, c2, A2)
+           Pos(q, u2, A2) ==
+             IF q > Len(it.ins) THEN [used |-> u2, A |-> A2]
+             ELSE IF q \notin RepeatPositions(it) THEN Pos(q + 1, u2, A2)
              ELSE LET b == IdOf(it.ins[q][1])
-                      k == IF b \in DOMAIN c2 THEN c2[b] ELSE 0
-                  IN Pos(q + 1, (b :> k + 1) @@ c2, (<<j, q>> :> UidCand(b \o "_dup", k)) @@ A2)
-           r == Pos(1, cnt, A)
-       IN DupAssign(p, ord, g + 1, r.cnt, r.A)
+                      nm == FirstFree(b \o "_dup", u2 \cup BenchNets(p), 0)
+                  IN Pos(q + 1, u2 \cup {nm}, (<<j, q>> :> nm) @@ A2)
+           r == Pos(1, used, A)
+       IN DupAssign(p, ord, g + 1, r.used, r.A)
 PermsOf(S) == {s \in [1..Cardinality(S) -> S] : \A a, b \in 1..Cardinality(S) : a # b => s[a] # s[b]}
-DupAssignments(p) == {DupAssign(p, ord, 1, <<>>, <<>>) : ord \in PermsOf(DupGates(p))}
+DupAssignments(p) == {DupAssign(p, ord, 1, {}, <<>>) : ord \in PermsOf(DupGates(p))}
 BenchBuild(p, A) ==
   LET gates == {j \in 1..Len(p.items) : p.items[j].k = "gate"}
       dffs  == {j \in 1..Len(p.items) : p.items[j].k = "bb"}
@@ -76,7 +83,6 @@ BenchModelApplies(p) ==
   /\ DrivenNets(p) \cap FreeNets(p) = {}
   /\ \A j \in 1..Len(p.items) : p.items[j].k = "gate" =>
         \A q \in 1..Len(p.items[j].ins) : IdOf(p.items[j].ins[q][1]) \in DrivenNets(p) \cup FreeNets(p)
-  /\ \A x \in DrivenNets(p) \cup FreeNets(p) : ~HasDup(x)
   /\ Cardinality(DupGates(p)) <= 3
 DriftBenchParse(e) ==
   IF "dialect" \in DOMAIN e /\ e.dialect = "bench" /\ e.exc = "" /\ WellFormedRec(e.r) /\ e.r.n <= 18 /\ BenchModelApplies(e.p)
@@ -84,7 +90,7 @@ DriftBenchParse(e) ==
   THEN {"DRIFT:bench_circuit_differs_from_reader_model"} ELSE {}
 DriftBenchRoundTrip(e) ==
   IF e.exc = "" /\ WellFormedRec(e.c) /\ WellFormedRec(e.c2) /\ e.c.n <= 14 /\ Len(e.c.bbs) = 0 /\ Inputs(e.c) # {}
-     /\ (\A x \in NameSet(e.c) : ~HasDup(x)) /\ Cardinality(OfType(e.c, {"0", "1"})) <= 3
+     /\ Cardinality(OfType(e.c, {"0", "1"})) <= 3
      /\ ToNamed(e.c2) \notin UNION {BenchReaderResults(BenchWriterProgram(e.c, ci)) : ci \in InputNames(e.c)}
   THEN {"DRIFT:bench_circuit_read_back_differs_from_reader_model_of_writer_model"} ELSE {}
 =============================================================================
